@@ -276,6 +276,14 @@ class Exec:
                         c2 = [f for f in cands if f.name.startswith(tmods[-1] + "::") or ("::" + tmods[-1] + "::") in f.name]
                         if c2:
                             cands = c2
+            if len(cands) > 1:
+                # trait with a type argument (Match<Ipv4Addr> vs Match<Ipv6Addr>): the argument is a parameter type of the impl's method
+                parts = split_top_as(path[1:path.index(">::")] if ">::" in path else path[1:])
+                if len(parts) == 2 and "<" in parts[1]:
+                    targ = base_type_name(parts[1][parts[1].index("<") + 1:parts[1].rindex(">")])
+                    c2 = [f for f in cands if any(base_type_name(t.replace("&", "").strip()) == targ for k, t in f.param_types.items() if k >= 2)]
+                    if c2:
+                        cands = c2
             if len(cands) == 1:
                 return cands[0]
             if len(cands) > 1:
@@ -297,6 +305,13 @@ class Exec:
             c1s = [f for f in c1 if 1 in f.param_types and base_type_name(f.param_types[1]) == hint] or c1
             if len(c1s) == 1:
                 return c1s[0]
+            def ret_inner(r):
+                r = re.sub(r"^(?:\w+::)*Result<(.*),[^,]*>$", r"\1", r.strip())
+                r = re.sub(r"^(?:\w+::)*Option<(.*)>$", r"\1", r.strip())
+                return base_type_name(r)
+            c1r = [f for f in cands if "<impl at" in f.name and ret_inner(f.ret) == hint]
+            if len(c1r) == 1:
+                return c1r[0]
             c2 = [f for f in cands if hint.lower() in f.name.lower() or (1 in f.param_types and hint in f.param_types[1])]
             if len(c2) == 1:
                 return c2[0]
@@ -498,6 +513,12 @@ class Exec:
         m = re.match(r"^(-?\d+)_(u8|u16|u32|u64|u128|usize|i8|i16|i32|i64|i128|isize)$", c)
         if m:
             return bv_const(int(m.group(1)), m.group(2))
+        m = re.match(r"^(u8|u16|u32|u64|u128|usize|i8|i16|i32|i64|i128|isize)::(MAX|MIN)$", c)
+        if m:
+            w, sg = INT_TYPES[m.group(1)]
+            if m.group(2) == "MAX":
+                return bv_const((1 << (w - 1)) - 1 if sg else (1 << w) - 1, m.group(1))
+            return bv_const(-(1 << (w - 1)) if sg else 0, m.group(1))
         if c == "true":
             return Bool(True)
         if c == "false":
